@@ -171,11 +171,7 @@ class RvErrors(Slice):
         return findings, cl
 
     def text_model_outcome(self, model, text):
-        import lex_corr as L
-        lines = text.splitlines()
-        if not all(L.in_domain(l) for l in lines):
-            return NotImplemented
-        r = model.call([93, [], [], [[ord(c) for c in l] for l in lines]])
+        r = model.call([94, [], [], [ord(c) for c in text]])      # the whole text; the model splits the lines itself
         return r[0][0] if r[0] else None
 
     def tokens(self, text):
